@@ -33,6 +33,11 @@ class Path(object):
         return [(e[1], e[2]) for e in self.events if e[0] == 'if']
 
 
+# callables whose result is an object, never None (constructors of bytes-like values, serialisers, hashes)
+NEVER_NONE = {'serialize', 'Hash', 'Hash160', 'bytes', 'bytearray', 'pack', 'join', 'digest', 'getvalue', 'hexlify', 'unhexlify', 'CScript', 'tuple', 'list', 'dict', 'set',
+              'str', 'int', 'len', 'to_bytes', 'GetHash', 'GetTxid', 'get_header', 'encode', 'decode', 'format', 'repr'}
+
+
 class Tracer(object):
     """Enumerates the paths through a statement list under a (partially) concrete environment."""
 
@@ -78,8 +83,15 @@ class Tracer(object):
         if isinstance(e, ast.Compare) and len(e.ops) == 1 and isinstance(e.ops[0], (ast.Is, ast.IsNot)) and isinstance(e.left, ast.Name) \
                 and isinstance(e.comparators[0], ast.Constant) and e.comparators[0].value is None:
             src = path.env.get('?' + e.left.id)
+            if e.left.id not in path.env and path.env.get('!' + e.left.id):
+                return isinstance(e.ops[0], ast.IsNot)
             if e.left.id not in path.env and isinstance(src, (ast.List, ast.ListComp, ast.Tuple, ast.Dict, ast.Set, ast.DictComp, ast.SetComp, ast.JoinedStr, ast.BinOp)):
                 return isinstance(e.ops[0], ast.IsNot)
+            if e.left.id not in path.env and isinstance(src, ast.Call):
+                f_ = src.func
+                tail = f_.id if isinstance(f_, ast.Name) else (f_.attr if isinstance(f_, ast.Attribute) else None)
+                if tail in NEVER_NONE:
+                    return isinstance(e.ops[0], ast.IsNot)
         t = norm(e)
         if t in path.assume:
             return path.assume[t]
@@ -179,6 +191,7 @@ class Tracer(object):
             if name in self.pinned:
                 p.events.append(('stmt', s))
                 return [p]
+            p.env.pop('!' + name, None)
             if v is not UNKNOWN and not isinstance(v, (list, dict, set, bytearray)):
                 p.env[name] = v
             else:
@@ -200,14 +213,16 @@ class Tracer(object):
             p.events.append(('stmt', s))
             return [p]
         if isinstance(s, ast.AugAssign) and isinstance(s.target, ast.Name):
-            p.env.pop(s.target.id, None)
+            self._forget(p, s.target.id, aug=True)
             p.events.append(('stmt', s))
             return [p]
         if isinstance(s, (ast.For, ast.While)):
             # loops are recorded as one opaque event; names assigned inside are forgotten
+            plain = {t.id for n in ast.walk(s) if isinstance(n, ast.Assign) for t in ast.walk(n.targets[0]) if isinstance(t, ast.Name)} | \
+                {t.id for n in ast.walk(s) if isinstance(n, (ast.For, ast.comprehension)) for t in ast.walk(n.target) if isinstance(t, ast.Name)}
             for n in ast.walk(s):
                 if isinstance(n, ast.Name) and isinstance(n.ctx, ast.Store):
-                    p.env.pop(n.id, None)
+                    self._forget(p, n.id, aug=n.id not in plain)
             p.events.append(('stmt', s))
             return [p]
         if isinstance(s, ast.Try):
@@ -215,6 +230,19 @@ class Tracer(object):
             return [p]
         p.events.append(('stmt', s))
         return [p]
+
+    def _forget(self, p, name, aug=False):
+        """the value of `name` is no longer known; if it is only updated in place (x += ...) from a value that was not
+        None, it is still not None"""
+        was = p.env.get(name, UNKNOWN)
+        nonnull = p.env.get('!' + name, False)
+        if name in p.env and was is not None and was is not UNKNOWN:
+            nonnull = True
+        p.env.pop(name, None)
+        if aug and nonnull:
+            p.env['!' + name] = True
+        else:
+            p.env.pop('!' + name, None)
 
     def _if(self, s, p, done):
         t = self.tri(s.test, p)
